@@ -1,6 +1,6 @@
 /-
 pm_c16: model driver for C16.  A case starts with `fopen` (one stand-alone fragment) or `srv`
-(an index with set fields a b c, a time field t (quantum D), a filter field g; shards 0 1 2).
+(an index with set fields a b c d, a time field t (quantum D), a filter field g; shards 0 1 2).
 
 fragment lines
   fset|fclear <row> <col>                         -> true|false
@@ -35,7 +35,7 @@ structure St where
 def shards : List Nat := [0, 1, 2]
 
 def fieldNo : String → Option Nat
-  | "a" => some 0 | "b" => some 1 | "c" => some 2 | "t" => some 3 | _ => none
+  | "a" => some 0 | "b" => some 1 | "c" => some 2 | "t" => some 3 | "d" => some 4 | _ => none
 
 def parseBits (s : String) : Option (List (Nat × Nat)) :=
   if s = "-" || s = "" then some [] else
@@ -220,7 +220,7 @@ def step (st : St) (ws : List String) : St × Ans :=
           | some fields, some l, some flt =>
             let a : GroupByArgs := { children := fields.map (fun f => { field := f }), limit := some l,
                                      filter := if flt = "g" then some (filterFn st) else none }
-            let res := if op = "pageoffset" then pageOffset st.db a l 80 0 [] 0 else pageGroup st.db a 80 none [] 0
+            let res := if op = "pageoffset" then pageOffset st.db a l 300 0 [] 0 else pageGroup st.db a 300 none [] 0
             let full := Spec.groupBy st.db { a with limit := none } shards
             match res with
             | some (gs, pages) =>
